@@ -42,6 +42,11 @@ type RunConfig struct {
 	// Blackhole lists servers whose address swallows dials while nothing listens (instead of refusing).
 	Blackhole  []int
 	SiteFaults bool
+	// CorruptP: probability that a marshalled frame is corrupted in transit (C13)
+	CorruptP float64
+	// FreeTasks: harness tasks are not scheduled one at a time (race-detector runs: the
+	// scheduler's hand-over would order every pair of accesses by happens-before)
+	FreeTasks bool
 }
 
 // Program is the workload and fault plan of a run; explicit data so that it can
